@@ -466,6 +466,9 @@ func (c *fctx) binary(t *ast.BinaryExpr) string {
 				}
 				return "(Int.tmod " + a + " " + b + ")"
 			}
+			if t.Op == token.REM { // a non-constant divisor: division by zero is a Go panic
+				return fmt.Sprintf("(← Go.remInt %s %s %s)", a, b, c.site(t.Pos()))
+			}
 		}
 	}
 	if k == kBytes && t.Op == token.ADD {
